@@ -125,7 +125,7 @@ def viewStr (k : Kind) (s : Store) (q : List (List Bytes)) : String :=
   | .netmap =>
     let epoch := match get s NeoFS.Generated.netmap_snapshotEpoch_bytes with
       | none => "null" | some b => if b.length ≤ 32 then toString (decInt b) else "!"
-    let snaps := [0, 1, 2].map (fun (d : Nat) => s!"{d}:{optStr showItem (nmSnapshot s d)}")
+    let snaps := [0, 1, 2, 9, 10, 11].map (fun (d : Nat) => s!"{d}:{optStr showItem (nmSnapshot s d)}")
     let cand := match nmCandidates s with | none => "!" | some l => "[" ++ showItems l ++ "]"
     let cfg := (nmConfig s).map (fun kv => s!"{hexOf kv.1}={hexOf kv.2}")
     s!" epoch={epoch} nm={optStr showItem (nmNetmap s)} cand={cand} snap=[{joinWith ";" snaps}]" ++
